@@ -25,7 +25,7 @@ CodecOK(e) ==
 ApplyOK(e) == e.ok => e.out = Proj(Apply(e.ms, e.lits, e.dict))
 
 (* what the harness logged about the choice compress made (coverage; read by the deviation guards) *)
-Note(e) == [tag |-> e.tag, via |-> e.via,
+Note(e) == [tag |-> e.tag, via |-> e.via, algo |-> IF Has(e, "algo") THEN e.algo ELSE "",
             fellback |-> IF Has(e, "fellback") THEN e.fellback ELSE FALSE,
             globals |-> IF Has(e, "globals") THEN e.globals ELSE 0]
 
